@@ -18,3 +18,53 @@ Definition should_rename_name (refs old_len new_len old_mentions new_mentions ad
 (* HoistedBinding.should_rename: the "old name" is the literal's repr *)
 Definition should_rename_hoisted (refs lit_len new_len : nat) : bool :=
   Nat.leb (1 * lit_len + (refs + 1) * new_len + 2) (refs * lit_len).
+
+(* ---- the per-reference accounting of rename/binding.py (Binding.additional_byte_cost / old_mention_count /
+   new_mention_count): what each kind of reference node contributes ---- *)
+Inductive refkind :=
+| RName            (* ast.Name with Load/Store/Del context *)
+| RDef             (* FunctionDef / AsyncFunctionDef / ClassDef *)
+| RExcept          (* ExceptHandler *)
+| RDecl (n : nat)  (* Global / Nonlocal statement that lists the name n times *)
+| RAliasPlain      (* import alias without `as` *)
+| RAliasAs         (* import alias with `as` *)
+| RArgInPlace      (* ast.arg that may be renamed in the signature *)
+| RArgRebind       (* ast.arg that keeps its name in the signature and is re-bound in the body *)
+| RStar (n : nat)  (* python 2 `arguments` node naming the binding n times as vararg/kwarg *)
+| RMatch           (* MatchAs / MatchStar / MatchMapping capture *)
+| RTypeParam.      (* TypeVar / TypeVarTuple / ParamSpec *)
+
+Definition is_rebind (k : refkind) : bool := match k with RArgRebind => true | _ => false end.
+Definition is_arg (k : refkind) : bool := match k with RArgRebind | RArgInPlace => true | _ => false end.
+Definition is_plain_alias (k : refkind) : bool := match k with RAliasPlain => true | _ => false end.
+Definition count (p : refkind -> bool) (refs : list refkind) : nat := length (filter p refs).
+Definition flag (p : refkind -> bool) (refs : list refkind) : nat := if existsb p refs then 1 else 0.
+
+Definition additional_byte_cost (refs : list refkind) : nat := 4 * count is_plain_alias refs + 2 * flag is_rebind refs.
+Definition old_mention_count (refs : list refkind) : nat := count is_plain_alias refs + count is_rebind refs + flag is_rebind refs.
+Definition new_mentions_of (k : refkind) : nat :=
+  match k with
+  | RName | RDef | RExcept | RAliasPlain | RAliasAs | RMatch | RTypeParam => 1
+  | RDecl n | RStar n => n
+  | RArgInPlace | RArgRebind => 0
+  end.
+Definition new_mention_count (refs : list refkind) : nat := fold_right (fun k a => new_mentions_of k + a) 0 refs + flag is_arg refs.
+Definition should_rename_refs (refs : list refkind) (old_len new_len : nat) : bool :=
+  should_rename_name (length refs) old_len new_len (old_mention_count refs) (new_mention_count refs) (additional_byte_cost refs).
+
+(* what the rename really writes, lexeme by lexeme (NameBinding.rename): characters of identifiers, ` as `, and the
+   inserted `new=old` + newline.  A binding has at most one argument reference. *)
+Definition chars_before (old_len : nat) (k : refkind) : nat :=
+  match k with RDecl n | RStar n => n * old_len | _ => old_len end.
+Definition chars_after (old_len new_len : nat) (k : refkind) : nat :=
+  match k with
+  | RName | RDef | RExcept | RAliasAs | RMatch | RTypeParam | RArgInPlace => new_len
+  | RDecl n | RStar n => n * new_len
+  | RAliasPlain => old_len + 4 + new_len                 (* import old as new *)
+  | RArgRebind => old_len + (new_len + 1 + old_len + 1)  (* the parameter keeps its name; new=old\n is inserted *)
+  end.
+Definition text_before (refs : list refkind) (old_len : nat) : nat := fold_right (fun k a => chars_before old_len k + a) 0 refs.
+Definition text_after (refs : list refkind) (old_len new_len : nat) : nat := fold_right (fun k a => chars_after old_len new_len k + a) 0 refs.
+(* the accounting is exact when every declaration lists the name once and there is at most one argument reference *)
+Definition simple_ref (k : refkind) : bool := match k with RDecl n | RStar n => Nat.eqb n 1 | _ => true end.
+Definition simple_refs (refs : list refkind) : bool := forallb simple_ref refs && Nat.leb (count is_arg refs) 1.
